@@ -93,6 +93,75 @@ def rule_if_entry(cx, rep, port='py'):
         rep.decide(ok, 'package exports', init.body[0], 'query, query_table, query_csv, query_pandas_dataframe exported', 'package exports changed')
 
 
+def _runner_outcome(rep, p, r, runner):
+    """any exception of the query -> (type, message) -> show_error and result False; no exception -> no error line and result True.
+    Decided on the path summaries of the runner (a helper that computes the result is followed), not on its layout."""
+    from .. import pathsem
+    ps = pathsem.paths(r)
+    if ps is None:
+        rep.undecided(runner + ' outcome', r, 'runner is not summarisable as paths')
+        return
+    full = []
+    for q in ps:
+        if q.kind == 'return' and isinstance(q.value, ast.Call) and isinstance(q.value.func, ast.Name) and p.func('rbql_main', q.value.func.id, required=False) is not None:
+            h = p.func('rbql_main', q.value.func.id)
+            hps = pathsem.paths_with_env(h, {a.arg: arg for a, arg in zip(h.args.args, q.value.args)})
+            if hps is None:
+                rep.undecided(runner + ' outcome', h, 'helper {} is not summarisable as paths'.format(h.name))
+                return
+            for x in hps:
+                y = q.copy()
+                y.conds = q.conds + x.conds
+                y.calls = q.calls + x.calls
+                y.kind, y.value, y.node = x.kind, x.value, x.node
+                full.append(y)
+        else:
+            full.append(q)
+
+    def maps_exception(e):
+        return any(isinstance(c, ast.Call) and (dotted(c.func) or '').endswith('exception_to_error_info') for c in ast.walk(e))
+
+    def truth(atom):
+        if isinstance(atom, ast.Compare) and len(atom.ops) == 1 and isinstance(atom.ops[0], (ast.Is, ast.Eq)) and is_none(atom.comparators[0]):
+            if is_none(atom.left):
+                return True
+            if maps_exception(atom.left):
+                return False
+        return None
+    n_err = n_ok = 0
+    mapped = False
+    for q in full:
+        if q.kind != 'return':
+            continue
+        feasible = True
+        for atom, pol in pathsem.atoms(q.conds):
+            tv = truth(atom)
+            if tv is not None and tv != pol:
+                feasible = False
+        if not feasible:
+            continue
+        failed = bool(q.in_handler)
+        if failed and not any(maps_exception(v) for v in q.env.values()):
+            continue    # a handler that does not map (e.g. cleanup) - the mapping handler is checked below
+        mapped = mapped or failed
+        shows_err = [c for c in q.calls if isinstance(c, ast.Call) and dotted(c.func) == 'show_error']
+        val = const_value(q.value) if q.value is not None else None
+        if failed:
+            n_err += 1
+            if not shows_err or val is not False:
+                rep.violated(runner + ' outcome', q.node, 'after a failed query {} {} and returns `{}`: the CLI must print an `Error [type]` line and report failure (non-zero exit status)'.format(runner, 'shows the error' if shows_err else 'shows no error line', node_text(q.value, 40)))
+                return
+            if not (len(shows_err[0].args) >= 2 and maps_exception(shows_err[0].args[0]) and maps_exception(shows_err[0].args[1])):
+                rep.violated(runner + ' outcome', q.node, 'the error line is not built from the (type, message) pair of the exception: `{}`'.format(node_text(shows_err[0], 100)))
+                return
+        else:
+            n_ok += 1
+            if shows_err or val is not True:
+                rep.violated(runner + ' outcome', q.node, 'after a successful query {} {} and returns `{}`'.format(runner, 'prints an error line' if shows_err else 'prints no error', node_text(q.value, 40)))
+                return
+    rep.decide(n_err >= 1 and n_ok >= 1 and mapped, runner + ' outcome', r, 'any exception -> (type, message) -> show_error, result False; otherwise warnings are shown and result True', '{} no longer maps every exception to an `Error [type]` line and a False result'.format(runner))
+
+
 def rule_cl_stdout(cx, rep, port='py'):
     """on the non-interactive path no print to stdout is reachable except --version; errors `Error [type]: msg` and warnings to stderr"""
     p = cx.py
@@ -122,13 +191,17 @@ def rule_cl_stdout(cx, rep, port='py'):
         r = p.func('rbql_main', runner)
         prints = [c for c in walk_no_nested(r) if isinstance(c, ast.Call) and dotted(c.func) in ('print', 'sys.stdout.write')]
         rep.decide(not prints, runner + ' stdout', prints[0] if prints else r, 'the runner itself prints nothing to stdout', '{} prints to stdout on the query path'.format(runner))
-        shows = [c for c in walk_no_nested(r) if isinstance(c, ast.Call) and dotted(c.func) in ('show_error', 'show_warning')]
+        # message calls of the runner and of the module-level helpers it calls
+        scopes = [r]
+        for c in walk_no_nested(r):
+            if isinstance(c, ast.Call) and isinstance(c.func, ast.Name):
+                h = p.func('rbql_main', c.func.id, required=False)
+                if h is not None and h.name not in ('show_error', 'show_warning', 'eprint') and h not in scopes:
+                    scopes.append(h)
+        shows = [c for sc_ in scopes for c in walk_no_nested(sc_) if isinstance(c, ast.Call) and dotted(c.func) in ('show_error', 'show_warning')]
         ok = shows and all(len(c.args) >= 2 and is_name(c.args[-1], 'is_interactive') for c in shows)
         rep.decide(bool(ok), runner + ' channel flag', shows[0] if shows else r, 'messages honour the is_interactive flag', '{} does not pass is_interactive to show_error/show_warning'.format(runner))
-        # error path: exception_to_error_info -> show_error -> success False ; warnings only on success
-        t = node_text(r, 6000).replace(' ', '')
-        okf = 'error_type,error_msg=rbql_engine.exception_to_error_info(e)' in t and 'iferror_typeisNone:success=True' in t and 'else:success=Falseshow_error(error_type,error_msg,is_interactive)' in t and 'returnsuccess' in t
-        rep.decide(okf, runner + ' outcome', r, 'any exception -> (type, message) -> show_error, success False; otherwise warnings are shown and success True', '{} no longer maps every exception to an `Error [type]` line and a False result'.format(runner))
+        _runner_outcome(rep, p, r, runner)
         m = p.func('rbql_main', entry)
         main_prints = [c for c in walk_no_nested(m) if isinstance(c, ast.Call) and dotted(c.func) == 'print']
         okv = all(isinstance(getattr(_stmt(c), 'parent', None), ast.If) and node_text(_stmt(c).parent.test) == 'args.version' for c in main_prints)
